@@ -86,6 +86,9 @@ func Load(repoDir string, patterns []string) (*Engine, error) {
 			return nil, err
 		}
 	}
+	if err := e.Spec.CheckAlternatives(); err != nil {
+		return nil, err
+	}
 	return e, err
 }
 
